@@ -15,7 +15,7 @@ class Models:
         p = astload.dump(txt, wd, 'models', inc=self.inc, tolerate=errs)
         self.ast = astload.Ast().load(p)
         os.remove(p)
-        p2 = astload.dump(txt, wd, 'models', filt='hash', inc=self.inc, tolerate=[])
+        p2 = astload.dump(txt, wd, 'models', filt='has', inc=self.inc, tolerate=[])
         self.ast.load(p2)
         os.remove(p2)
         for e in errs:
